@@ -77,6 +77,8 @@ def check(ctx, case, k=3, max_nodes=1500):
                         break
                     cur = nxt
             trig = sorted(flags & {"add_after_delete", "conflict", "accumulate"})
+            if blamed == "trajectory" and _nonconst_bool_value(case["problem"]):
+                trig.append("nonconst-bool-value")
             raise Violation(
                 f"unsound:{blamed}" + ("".join(":" + t for t in trig)),
                 f"compiled plan {describe(steps)} is valid for the compiled problem but maps back to {describe(back)} which is not valid for the original: {why}",
@@ -86,6 +88,11 @@ def check(ctx, case, k=3, max_nodes=1500):
         if steps and rewrote:
             ctx.nontriv([label, spec_hash(c.spec), describe(steps)])
     ctx.cls(f"plans:{label}", len(plans))
+
+
+def _nonconst_bool_value(spec):
+    btypes = {f["name"] for f in spec["fluents"] if f["type"] == "bool"}
+    return any(e["fl"][1] in btypes and e["val"][0] != "b" for a in spec["actions"] for e in a["eff"])
 
 
 def spec_hash(spec):
